@@ -12,6 +12,8 @@ type c09 struct{}
 
 func init() { engine.Register(c09{}) }
 
+func (c09) PostGenerate(r *engine.Rand, sc *engine.Scenario) { chooseEnv(r, sc) }
+
 func (c09) ID() string { return "C09" }
 
 func (c09) Budget(tier string) int {
